@@ -238,7 +238,7 @@ func (v *VStruct) getCacheStructType(ty reflect.Type) structType {
 			continue
 		}
 		info := structFieldInfo{
-			export:     IsExported(fieldInfo.Name),
+			export:     fieldInfo.PkgPath == "", // 非 ASCII 大写开头的字段也是可导出的
 			offset:     fieldNum,
 			name:       fieldInfo.Name,
 			validNames: fieldInfo.Tag.Get(v.targetTag),
